@@ -235,6 +235,7 @@ pub enum Op {
     EgShare,           // [skshare, ect] -> [eshare]
     EgDkFromShares,    // [eshare..] -> [edk]
     EgDkDecrypt,       // [edk, ect] -> [point]
+    EgVerifyRaw,       // [pk, generator(empty = default), c1, c2, mp, bp, ch] -> []   trait-level BlsElGamal::verify_proof
     MsgGenerator,      // [] -> [point]
     Dsts,              // [] -> [basic, aug, pop_sig, pop_pop, elgamal_enc]
     Recode,            // [ty, codec_in, codec_out, bytes] -> [bytes]
